@@ -6,6 +6,7 @@ package composite
 
 import (
 	"k8s.io/apimachinery/pkg/apis/meta/v1/unstructured"
+	v1 "metacontroller/pkg/controller/composite/api/v1"
 
 	"metacontroller/pkg/zzverif/env"
 	"metacontroller/pkg/zzverif/gen"
@@ -88,7 +89,13 @@ func VerifC11_StatusWrite() {
 		w.Srv.FaultAt, w.Srv.FaultKind = 0, env.FaultConflict
 	}
 
-	pc := verifNewPC(w, verifPCConfig{ParentRes: res})
+	// (the status goes through a WHOLE real sync - a hook that returns it, no
+	// child resources: which internal function adds observedGeneration is the
+	// implementation's business)
+	hook := &verifHook{enabled: true, fn: func(req *v1.CompositeHookRequest) (*v1.CompositeHookResponse, error) {
+		return &v1.CompositeHookResponse{Status: hookStatus}, nil
+	}}
+	pc := verifNewPC(w, verifPCConfig{ParentRes: res, GenerateSelector: true, Sync: hook})
 	var liveBefore *unstructured.Unstructured
 	if live != nil {
 		liveBefore = live.DeepCopy()
@@ -103,7 +110,7 @@ func VerifC11_StatusWrite() {
 		cached.Object["status"] = st
 	}
 
-	_, err := pc.updateParentStatus(cached, hookStatus)
+	err := pc.syncParentObject(cached)
 
 	// expected status: hook status ∪ {observedGeneration: generation of the parent sent to the hook}
 	want := map[string]interface{}{}
@@ -117,12 +124,12 @@ func VerifC11_StatusWrite() {
 	rt.Observe("err", err != nil)
 	switch liveKind {
 	case 3:
+		// (whether a vanished or replaced parent makes the sync fail or is taken as
+		// "nothing left to do" is open; nothing is written)
 		rt.Cover("live-gone")
-		rt.Assert(err != nil, "gone/no-error")
 		rt.Assert(len(writes) == 0, "gone/write")
 		return
 	case 2:
-		rt.Assert(err != nil, "replaced/no-error")
 		rt.Assert(len(writes) == 0, "replaced/write-to-same-named-parent-with-different-uid")
 		cur := w.Srv.Peek(res.Name, "ns", "p")
 		gen.Equal(cur.Object, liveBefore.Object, "replaced/object-modified")
